@@ -788,7 +788,9 @@ def probe_machine(rnd, idx):
     return m, [2, 5, 5], ('z80', 1, True)
 
 
-def one_recording(rnd, wd, idx, tier, cases, traces, stats):
+def one_recording(rseed, wd, idx, tier, cases, traces, stats):
+    """Everything about recording `idx` derives from rseed, so that a replay can make it again."""
+    rnd = random.Random(rseed)
     m = gen_machine(rnd, idx)
     plan = gen_plan(rnd, 10 if tier == 'quick' else 14)
     conv = rnd.randrange(4)
@@ -838,7 +840,7 @@ def one_recording(rnd, wd, idx, tier, cases, traces, stats):
             stats['frames-with-readings'] += 1
     stats['repeat-markers'] += sum(1 for b in files[0][1] for f in b['fs'] if f[1] == 65535)
     feclaim = 1 if fmt[0] == 'szx' else 0
-    common = {'rec': idx, 'key': key, 'conv': conv, 'fmt': [fmt[0], fmt[1] or 0, 1 if fmt[2] else 0], 'feclaim': feclaim}
+    common = {'rec': idx, 'rseed': rseed, 'tier': tier, 'key': key, 'conv': conv, 'fmt': [fmt[0], fmt[1] or 0, 1 if fmt[2] else 0], 'feclaim': feclaim}
 
     modes = set(b['snapmode'] for b in files[0][1])
     for md in modes:
@@ -887,7 +889,7 @@ def one_recording(rnd, wd, idx, tier, cases, traces, stats):
                 limit = 300 if tier == 'quick' else 600
                 obs, bad = read_trace(tr, limit)
                 ev = recs[cm].events
-                traces.append({'rec': idx, 'key': key, 'impl': impl, 'cmio': cm, 'flags': fl, 'blocks': bj,
+                traces.append({'rec': idx, 'rseed': rseed, 'tier': tier, 'key': key, 'impl': impl, 'cmio': cm, 'flags': fl, 'blocks': bj,
                                'ev': ev[:len(obs) + 1], 'obs': obs, 'full': 1 if len(ev) <= limit and not bad else 0, 'bad': bad})
             if os.path.exists(out):
                 os.remove(out)
@@ -939,10 +941,9 @@ def campaign(args):
     from collections import Counter
     from ..lib import cbuild
     cbuild.preload()
-    rnd = random.Random(seed)
     sub = os.path.join(wd, 's%d' % seed)
     os.makedirs(sub, exist_ok=True)
     cases, traces, stats = [], [], Counter()
     for k in range(n):
-        one_recording(rnd, sub, seed * 1000 + k, tier, cases, traces, stats)
+        one_recording(seed * 100003 + k, sub, seed * 1000 + k, tier, cases, traces, stats)
     return cases, traces, dict(stats)
